@@ -407,5 +407,145 @@ theorem isInfix_iff (s t : Bytes) : isInfix s t = true ↔ s <:+: t := by
   | cons x xs ih =>
     simp only [isInfix, Bool.or_eq_true, ih, List.isPrefixOf_iff_prefix, List.infix_cons_iff]
 
+/-! ### PAC: the credentials table and what `pacProxy` lets out of it -/
+
+/-- the flag's parser reads an admissible entry as `CredPub.entry` -/
+theorem parseHostPortUser_raw (c : CredPub) (pw : Bytes) (h : c.ok) :
+    parseHostPortUser (c.raw pw) = some (c.entry pw) := by
+  obtain ⟨hu, hhost, hath, hcolp, hatp, hport⟩ := h
+  have hnot : cAt ∉ c.host ++ cColon :: c.port := by
+    simp only [List.mem_append, List.mem_cons, not_or]
+    exact ⟨hath, by decide, hatp⟩
+  have hraw : c.raw pw = c.user.raw pw ++ cAt :: (c.host ++ cColon :: c.port) := by
+    simp [CredPub.raw]
+  have hp := portOK_of c.port hport
+  simp only [hraw, parseHostPortUser, cutLastByte_append cAt _ _ hnot,
+    parseUserinfo_raw c.user pw hu, parseHostPort, cutLastByte_append cColon c.host c.port hcolp]
+  simp only [hhost, hp, Bool.and_self, if_true, CredPub.entry]
+
+theorem mapOpt_credTable (cs : List CredPub) (i : Nat) (s : Nat → Bytes) (h : ∀ c ∈ cs, c.ok) :
+    mapOpt parseHostPortUser (rawsFrom CredPub.raw cs i s) = some (credTable cs i s) := by
+  induction cs generalizing i with
+  | nil => rfl
+  | cons c r ih =>
+    have hc := h c (List.mem_cons_self ..)
+    have hr := ih (i + 1) fun x hx => h x (List.mem_cons_of_mem _ hx)
+    simp only [rawsFrom, credTable, mapOpt, parseHostPortUser_raw c (s i) hc, hr]
+
+/-- what is public of a table entry: everything but the password itself -/
+structure CredView where
+  host : Bytes
+  port : Bytes
+  user : Bytes
+  hasPass : Bool
+  deriving DecidableEq
+
+def HostPortUser.view (e : HostPortUser) : CredView := ⟨e.host, e.port, e.ui.user, e.ui.pass.isSome⟩
+
+theorem view_entry (c : CredPub) (pw₁ pw₂ : Bytes) : (c.entry pw₁).view = (c.entry pw₂).view := by
+  simp only [HostPortUser.view, CredPub.entry]
+  cases c.user.hasPass <;> rfl
+
+theorem view_credTable (cs : List CredPub) (i : Nat) (s₁ s₂ : Nat → Bytes) :
+    (credTable cs i s₁).map HostPortUser.view = (credTable cs i s₂).map HostPortUser.view := by
+  induction cs generalizing i with
+  | nil => rfl
+  | cons c r ih => simp only [credTable, List.map_cons, view_entry c (s₁ i) (s₂ i), ih (i + 1)]
+
+/-- a search whose test looks at the public part only finds entries with the same public part -/
+theorem find_view (q : HostPortUser → Bool) (hq : ∀ a b : HostPortUser, a.view = b.view → q a = q b)
+    (t₁ t₂ : List HostPortUser) (h : t₁.map HostPortUser.view = t₂.map HostPortUser.view) :
+    (t₁.find? q).map HostPortUser.view = (t₂.find? q).map HostPortUser.view := by
+  induction t₁ generalizing t₂ with
+  | nil =>
+    cases t₂ with
+    | nil => rfl
+    | cons b r => simp at h
+  | cons a r ih =>
+    cases t₂ with
+    | nil => simp at h
+    | cons b r₂ =>
+      simp only [List.map_cons, List.cons.injEq] at h
+      have hab := hq a b h.1
+      simp only [List.find?_cons, ← hab]
+      cases q a with
+      | true => simp [h.1]
+      | false => exact ih r₂ h.2
+
+theorem view_host {a b : HostPortUser} (h : a.view = b.view) : a.host = b.host := by
+  simpa [HostPortUser.view] using congrArg CredView.host h
+
+theorem view_port {a b : HostPortUser} (h : a.view = b.view) : a.port = b.port := by
+  simpa [HostPortUser.view] using congrArg CredView.port h
+
+/-- the matcher picks entries with the same public part from two tables with the same public part -/
+theorem credMatch_view (t₁ t₂ : List HostPortUser) (host port : Bytes)
+    (h : t₁.map HostPortUser.view = t₂.map HostPortUser.view) :
+    (credMatch t₁ host port).map HostPortUser.view = (credMatch t₂ host port).map HostPortUser.view := by
+  unfold credMatch
+  simp only [Option.map_or]
+  rw [find_view _ (fun a b hab => by rw [view_host hab, view_port hab]) t₁ t₂ h,
+    find_view _ (fun a b hab => by rw [view_host hab, view_port hab]) t₁ t₂ h,
+    find_view _ (fun a b hab => by rw [view_host hab, view_port hab]) t₁ t₂ h,
+    find_view _ (fun a b hab => by rw [view_host hab, view_port hab]) t₁ t₂ h]
+
+/-- the userinfo that may be shown of an entry -/
+def CredView.ui (v : CredView) : Userinfo := ⟨v.user, if v.hasPass then some placeholder else none⟩
+
+theorem pub_via_entry (u : ProxyURL) (e : HostPortUser) :
+    (PacOutcome.via { u with user := some e.ui }).pub = .via { u with user := some e.view.ui } := by
+  simp only [PacOutcome.pub, Option.map_some, HostPortUser.view, CredView.ui]
+  rcases e with ⟨eh, ep, ⟨eu, _ | pw⟩⟩ <;> rfl
+
+/-- the outcome of `pacProxy` with the password replaced depends on the public part of the table only -/
+theorem pacProxy_pub_view (t₁ t₂ : List HostPortUser) (r : Bytes)
+    (h : t₁.map HostPortUser.view = t₂.map HostPortUser.view) :
+    (pacProxy t₁ r).pub = (pacProxy t₂ r).pub := by
+  unfold pacProxy
+  cases pacFirst r with
+  | error e => rfl
+  | ok p =>
+    simp only
+    split
+    · rfl
+    · cases hu : pacURL p with
+      | none => rfl
+      | some u =>
+        have hm := credMatch_view t₁ t₂ p.host p.port h
+        cases h₁ : credMatch t₁ p.host p.port with
+        | none =>
+          cases h₂ : credMatch t₂ p.host p.port with
+          | none => rfl
+          | some e₂ => simp [h₁, h₂] at hm
+        | some e₁ =>
+          cases h₂ : credMatch t₂ p.host p.port with
+          | none => simp [h₁, h₂] at hm
+          | some e₂ =>
+            simp only [h₁, h₂, Option.map_some, Option.some.injEq] at hm
+            simp only [pub_via_entry, hm]
+
+/-- the error text of `pacProxy` does not look at the table -/
+theorem pacProxy_errorText_table (t₁ t₂ : List HostPortUser) (r : Bytes) :
+    (pacProxy t₁ r).errorText = (pacProxy t₂ r).errorText := by
+  unfold pacProxy
+  cases pacFirst r with
+  | error e => rfl
+  | ok p =>
+    simp only
+    split
+    · rfl
+    · cases pacURL p with
+      | none => rfl
+      | some u =>
+        cases credMatch t₁ p.host p.port <;> cases credMatch t₂ p.host p.port <;> rfl
+
+/-- the rendering of an outcome does not look at the password -/
+theorem logged_pub (o : PacOutcome) : o.pub.logged = o.logged := by
+  cases o with
+  | error t => rfl
+  | direct => rfl
+  | via u =>
+    rcases u with ⟨sc, _ | ⟨uu, _ | pw⟩, h⟩ <;> rfl
+
 end C19
 end FwdVerif
